@@ -186,6 +186,8 @@ def classify(case, rr, stage, st):
                 st.known[kf["key"]] += 1
             raise Discard("known:" + kf["key"])
         raise Violation("the front end did not finish within 20 s (stage %s, args %r)" % (stage, case["variant"]), {"case": case, "sig": sig})
+    if rr.rc in (126, 127) and not rr.err.strip().startswith("souffle"):
+        raise Inconclusive("exec_failed")     # the binary could not be started (e.g. it is being relinked): not a verdict
     bad = (rr.rc is not None and rr.rc < 0 and not (stage == "evaluation" and rr.signal == 8)) or rr.rc not in (0, 1, None) and rr.rc >= 0 \
         or "Assertion" in rr.err or "terminate called" in rr.err
     if stage == "evaluation" and rr.rc is not None and rr.rc > 1 and "Assertion" not in rr.err:
